@@ -198,3 +198,151 @@ def fill_to(total, fixed, unit):
     room = total - fixed
     if room <= 0 or room % unit: return None
     return room // unit
+
+# =====================================================================================================================
+# SECOND audit pass (audit/C17/AUDIT2.md): input RELATIONS that a well-meant feature or clean-up of the decoders, of the request
+# reader or of the echo controllers would hinge on - tolerance (quotes, numbers, array names, other escape syntaxes, comment signs,
+# media-type parameters), robustness (cuts at a byte offset, chunked processing), speed (memo keyed by part of the input, a buffer
+# reused between two calls), settings (another request allocation size), refactoring (the handler without the server in front).
+# Everything is a deterministic function of its arguments; nothing here judges an answer.
+
+def enc_len(s):
+    """number of bytes the encoder prints for a printable text"""
+    return sum(3 if ch in ESC_PRINT else len(ch.encode()) for ch in s)
+
+# a unit repeated n times behind 0..w-1 filler bytes: for EVERY byte offset W inside the run and every frame the run lies in (the value,
+# the pair, the query, the request target, the body, the whole request, the echo line, the answer) exactly one shift has a unit starting
+# at W and the others have a multi-byte character - or an escape triplet - straddling it
+SWEEP_UNITS_QUICK = ['é', '€', '\U0001F600', ' ', '%', 'é ']
+SWEEP_UNITS_MORE = ['=\U0001F600', '€+', 'ab€', '\U0001F600 \U0001F600&']
+def align_sweeps(quick, room=9600):
+    out = []
+    rooms = (room,) if quick else (room, 4200, 1100)
+    for r in rooms:
+        for u in SWEEP_UNITS_QUICK + ([] if quick else SWEEP_UNITS_MORE):
+            w = enc_len(u)
+            for sh in range(w):
+                out.append(('value', {'k': 'a' * sh + u * ((r - sh) // w)}))
+        for u in (('é', '€') if quick else ('é', '€', '\U0001F600', ' ')):
+            w = enc_len(u)
+            for sh in range(w):
+                out.append(('name', {'a' * sh + u * ((r - sh) // w): 'v'}))
+    return out
+
+def chunk_residue_texts(quick):
+    """one escaped / wide character at EVERY offset 0..33 (thorough ..129) of a run of plain bytes, followed by tails of every residue
+    of the usual block sizes (8, 16, 32, 64): a scanner that works block-wise with a remainder loop, or a decoder with a look-ahead of
+    two bytes, meets the character in the last block, across two blocks and in the remainder"""
+    out = []
+    tails = (0, 1, 2, 3, 7, 8, 15, 16, 17, 31, 32) if quick else tuple(range(0, 67))
+    for e in (' ', '%', 'é', '\U0001F600', '&=', '%20'):
+        for i in range(0, 34 if quick else 130):
+            for j in tails:
+                out.append('a' * i + e + 'b' * j)
+    return out
+
+def chunk_residue_maps(quick):
+    out = []
+    for e in (' ', '%', 'é', '\U0001F600', '&=', '%20'):
+        for i in ((5, 6, 13, 14, 29, 30, 61, 62) if quick else range(0, 70)):
+            for j in (0, 1, 7, 8):
+                out.append({'k': 'a' * i + e + 'b' * j, 'a' * i + e: 'b' * j + e})
+    return out
+
+# names equal under the SPECIAL-CASING rules (one character becomes two or three; the byte length changes under to_lowercase /
+# to_uppercase), title-case digraphs, enclosed and astral letters: distinct fields all the same
+FOLD_FAMILIES2 = [['ŉ', 'ʼn', 'ʼN'], ['ǰ', 'J̌', 'ǰ'], ['ﬃ', 'ffi', 'FFI', 'Ffi'], ['ᾳ', 'ΑΙ', 'αι', 'ᾼ'], ['ﬅ', 'ﬆ', 'st', 'ST'],
+                  ['Ⅷ', 'ⅷ', 'VIII', 'viii'], ['ⓐ', 'Ⓐ', 'a'], ['ᲀ', 'в', 'В'], ['\U00010428', '\U00010400'], ['ßßß', 'SSSSSS', 'ssssss', 'ẞẞẞ'],
+                  ['İstanbul', 'istanbul', 'i̇stanbul', 'ISTANBUL', 'ıstanbul', 'Istanbul'], ['Ǆ', 'ǅ', 'ǆ', 'DŽ', 'Dž', 'dž'], ['ΌΣΟΣ', 'όσος', 'όσοσ', 'Όσος']]
+
+QUOTED = [{'q': '"abc"', 'r': 'abc', 's': "'abc'", 't': '"', 'u': '""', 'v': '"a', 'w': 'a"'}, {'"k"': '1', 'k': '2', "'k'": '3', '"k': '4', 'k"': '5'},
+          {'a': '"x y"', 'b': '"x&y=z"', 'c': '“x”', 'd': '«x»', 'e': '`x`', 'f': '(x)', 'g': '<x>', 'h': '[x]', 'i': '{x}'},
+          {'q': '"a"b"', 'r': '"a" "b"', 's': '\\"a\\"', 't': '"a\\"', 'u': "'it''s'", 'v': "''", 'w': '"\'"'}, {'only': '"quoted value"'}, {'"quoted name"': 'v'}]
+
+BRACKETS = [{'a': '0', 'a[]': '1', 'a[0]': '2', 'a[1]': '3', 'a[b]': '4', 'a[b][c]': '5', 'a.b': '6', 'a.b.c': '7', '[]': '8', 'a[': '9', 'a]': '10', '[a]': '11'},
+            {'tags[]': 'x', 'tags': 'y'}, {'user[name]': 'n', 'user[age]': '7', 'user.name': 'm', 'user': 'u', 'user[]': 'v'},
+            {'m[0]': 'a', 'm[1]': 'b', 'm[2]': 'c', 'm[10]': 'd', 'm[01]': 'e', 'm[-1]': 'f', 'm[ 1]': 'g', 'm[1][0]': 'h'}, {'x[0]': 'only'}, {'x[]': 'only'},
+            {'l[1]': 'b', 'l[0]': 'a'}, {'a[0]': '1,2', 'a[1]': '3', 'b': '1,2,3'}, {'a[0]': 'x', 'a': 'y'}, {'p.0': 'a', 'p.1': 'b', 'p': 'c', 'p.': 'd', '.p': 'e'},
+            {'a[0]': '', 'a[1]': ''}, {'k[é]': '1', 'k[€]': '2', 'é[0]': '3', 'é[1]': '4'}]
+
+FOREIGN = ['%u00E9', '%u0026', '%U0026', '%u003D', '\\u0026', '\\u00e9', '\\U0001F600', '\\x26', '\\x3D', '\\046', '&#38;', '&#x26;', '&#x3d;', '&#61', '&eacute;', '&nbsp;',
+           '&quot;', '\\&', '\\=', '\\+', '\\\\', '\\%', '\\ ', '^&', '`&', '=?UTF-8?Q?a=3Db?=', '=?utf-8?B?YQ==?=', 'YQ==', 'YWI=', 'YWJj', '=3D', '=C3=A9', '=\\r\\n',
+           '%%20', '%+', '+%', '%\\', 'U+0026', '0x26', '&;', '%;', '%e9', '%E9', '%C3%A9', '%c3%a9', '%F0%9F%98%80', '%C3', '%A9', '%FF', '%00', '%0', '%7F', '%80']
+
+TYPED = ['007', '7', '1.50', '1.5', '+1', '1', '-0', '0', '0.0', '1e3', '1E3', '1000', '0x1F', '31', '1_000', '1,000', ' 42', '42 ', 'TRUE', 'true', 'True', 'null',
+         'NULL', 'nil', 'None', 'undefined', 'NaN', 'Infinity', '-Infinity', 'on', 'off', 'yes', 'no', '[]', '{}', '[1,2]', '{"a":1}', '""', '0777', '08', '١٢٣', '１２３',
+         '1.0E+2', '.5', '5.', '²', '0b101', '1/2', '00', '000', '-', '+', '.', '1e', '9' * 25, '18446744073709551616', '-9223372036854775809', '2024-01-01', '12:30']
+
+COMMENT_START = ['#', ';', '//', '--', '!', '/*', '<!--', 'REM ', "'", '# ', '[', ':', '@', '~', '\\', '\\\\', '>', '|', '-', '*']
+COMMENT_END = ['\\', ' \\', '/*', '-->', '*/', '_', '&', '=', '?', '#', ';', ',', '.', ' ', '...', '\\\\', '^', '`', '~', '+', '%', '-', '|']
+
+def feature_maps():
+    """[(class, map)]: the relation each map carries is named by its class"""
+    out = []
+    for m in QUOTED: out.append(('quoted', m))
+    for m in BRACKETS: out.append(('bracket-names', m))
+    for i in range(0, len(FOREIGN), 6):
+        chunk = FOREIGN[i:i + 6]
+        out.append(('foreign-escapes', {'f%d' % j: t for j, t in enumerate(chunk)}))
+        out.append(('foreign-escapes', {t: 'g%d' % j for j, t in enumerate(chunk)}))
+        out.append(('foreign-escapes', {t: 'x' + t + 'y' + t for t in chunk}))
+    for i in range(0, len(TYPED), 10):
+        chunk = TYPED[i:i + 10]
+        out.append(('typed-values', {'n%d' % j: t for j, t in enumerate(chunk)}))
+        out.append(('typed-values', {t: 'x%d' % j for j, t in enumerate(chunk)}))
+    out.append(('typed-values', {'id': '007', 'ID': '7', 'Id': '7.0'}))
+    for i in range(0, len(COMMENT_START), 5):
+        chunk = COMMENT_START[i:i + 5]
+        m = {'a': '1'}
+        for j, s in enumerate(chunk): m[s + 'c%d' % j] = s + ' said ' + s
+        m['zz'] = 'last'
+        out.append(('comment-signs', m))
+        out.append(('comment-signs', {s: s for s in chunk}))
+    for i in range(0, len(COMMENT_END), 6):
+        chunk = COMMENT_END[i:i + 6]
+        out.append(('comment-signs', {'e%d' % j: 'value' + t for j, t in enumerate(chunk)}))
+        out.append(('comment-signs', {'name' + t: 'v%d' % j for j, t in enumerate(chunk)}))
+    out += [('comment-signs', m) for m in ({'[section]': 'x', 'key: value': 'y', 'k = v': 'z', 'a:b': 'c', 'a = b': 'c = d'}, {'a': 'line\\', 'b': 'next'}, {'a\\': 'b', 'c': 'd\\'},
+                                           {'#a': '1', 'a': '2', ';a': '3', '//a': '4'}, {'last': '#'}, {'last': 'x#y'}, {'#': 'first', 'b': '2'})]
+    for fam in FOLD_FAMILIES2:
+        out.append(('special-casing', {k: str(i + 1) for i, k in enumerate(fam)}))
+        out.append(('special-casing', {'x' + k + 'y': k for k in fam}))
+    out += [('self-reference', m) for m in ({'next': '/form-get-method?a=1&b=2', 'a': '0'}, {'url': 'http://localhost:7878/form-get-method?x=1#f', 'x': '2'},
+            {'form-get-method?': 'form-get-method?', '/form-url-encoded-enctype-post-method': 'POST'}, {'q': 'a=1&b=2', 'a': '3', 'b': '4'}, {'a': '1&a=2'},
+            {'a': '1', 'a=1': 'a', '&a': '=1'}, {'k': 'HTTP/1.1', 'GET': '/ HTTP/1.1', 'POST /x HTTP/1.1': ''}, {'Content-Length': '0', 'Content-Type': 'text/plain', 'Host': 'h'},
+            {'_charset_': 'UTF-8', 'charset': 'iso-8859-1', '_method': 'DELETE', 'isindex': 'x'}, {'a': 'a is a', 'a is a': 'a'}, {'?': '?', '??': '?'}, {'q?': 'x?', 'z': '?'})]
+    out += [('minimal', m) for m in ({'k': ''}, {'k': ' '}, {' ': ' '}, {'k': 'k'}, {'=': '='}, {'&': '&'}, {'?': ''}, {'0': ''}, {'é': ''}, {'%': ''}, {'+': ''}, {'\U0001F600': ''})]
+    return [(c, m) for c, m in out if m and all(k and printable(k) and printable(v) for k, v in m.items())]
+
+def history_sequences(quick):
+    """sequences of maps sent ONE AFTER THE OTHER to the same process (codec ops, and each echo endpoint): what a memo keyed by part of
+    the input (length, prefix, lower-cased text, the names only), or a buffer kept between two calls, gets wrong on the SECOND use"""
+    seqs = []
+    for n in ((16, 64, 256, 1024) if quick else (8, 16, 31, 32, 33, 64, 128, 256, 1024, 4096)):
+        pre = 'x' * n
+        seqs.append([{'k': pre + '1'}, {'k': pre + '2'}, {'k': pre + '1'}, {pre + 'a': '1'}, {pre + 'b': '1'}, {pre + 'a': '2'}, {'k': pre + 'é'}, {'k': pre + 'ê'}])
+        # ... and one character apart in the MIDDLE only: the same length, the same first and the same last n bytes
+        seqs.append([{'k': pre + '1' + pre}, {'k': pre + '2' + pre}, {'first': pre, 'mid': '1', 'z': pre}, {'first': pre, 'mid': '2', 'z': pre}, {'first': pre, 'mie': '1', 'z': pre},
+                     {'k': pre + 'é' + pre}, {'k': pre + 'ê' + pre}, {'k': pre + ' ' + pre}, {'k': pre + '%' + pre}, {'k': pre + '1' + pre}])
+    # equal length, equal prefix, one character apart at the very end; equal under lower-casing / folding
+    seqs.append([{'name': 'Value', 'other': 'x'}, {'name': 'value', 'other': 'x'}, {'Name': 'value', 'other': 'x'}, {'NAME': 'VALUE', 'OTHER': 'X'}, {'name': 'Value', 'other': 'x'}])
+    seqs.append([{'straße': '1'}, {'strasse': '2'}, {'STRASSE': '3'}, {'straẞe': '4'}, {'é': '1'}, {'é': '2'}, {'É': '3'}, {'e': '4'}])
+    seqs.append([{'a': '1', 'b': '2'}, {'a': '2', 'b': '1'}, {'b': '1', 'a': '2'}, {'a': '1', 'b': '2', 'c': ''}, {'a': '1', 'b': '2'}, {'a': '', 'b': ''}, {'a': '1', 'b': '2'}])
+    # long, then short, then long again: what is left of the longer input must not show in the shorter one
+    seqs.append([{'long': 'L' * 500, 'z': '1'}, {'s': '2'}, {'long': 'M' * 300}, {'t': '3'}, {'é' * 100: '€' * 100}, {'u': '4'}, {'k': ' ' * 200}, {'k': ' '}, {'k': '%' * 200}, {'k': '%'},
+                 {'k%02d' % i: 'v%d' % i for i in range(20)}, {'k00': 'w'}, {'k%02d' % i: 'w%d' % i for i in range(19, -1, -1)}])
+    # the same names with other values, the same values under other names, escapes that print alike
+    seqs.append([{'a b': '1'}, {'a+b': '2'}, {'a%20b': '3'}, {'a b': '4'}, {'k': 'a b'}, {'k': 'a+b'}, {'k': 'a%20b'}, {'k': 'a b'}])
+    return seqs
+
+def post_param_shapes(body, ascii_only):
+    """the media type with the parameters real clients append (jQuery, axios, old browsers: `; charset=UTF-8`); the statement does not
+    speak about them: judged only when the endpoint answers 200"""
+    cl = ('Content-Length', str(len(body)))
+    T = 'application/x-www-form-urlencoded'
+    out = [('ct-charset', [('Content-Type', T + '; charset=UTF-8'), cl]), ('ct-charset-lower', [('Content-Type', T + ';charset=utf-8')]),
+           ('ct-charset-quoted', [('Content-Type', T + '; charset="utf-8"'), cl]), ('ct-charset-utf8', [cl, ('Content-Type', T + '; charset=utf8')]),
+           ('ct-semicolon', [('Content-Type', T + ';')]), ('ct-blanks', [('Content-Type', ' ' + T + '  '), cl]), ('ct-boundary', [('Content-Type', T + '; boundary=x')])]
+    if ascii_only:
+        out += [('ct-charset-latin1', [('Content-Type', T + '; charset=ISO-8859-1'), cl]), ('ct-charset-ascii', [('Content-Type', T + '; charset=us-ascii')])]
+    return out
